@@ -83,7 +83,7 @@ psgstrf_bmod2D_mv2(
     float       *TriTmp;
     register int_t ldaTmp;
     register int_t r_ind, r_hi;
-    static   int_t first = 1, maxsuper, rowblk;
+    register int_t maxsuper = sp_ienv(3), rowblk = sp_ienv(4);
     register int_t twocols;
     int_t          kfnz2[2], jj2[2]; /* detect two identical columns */
     float       *tri[2], *matvec[2];
@@ -97,11 +97,6 @@ psgstrf_bmod2D_mv2(
     double f_time;
 #endif    
     
-    if ( first ) {
-	maxsuper = sp_ienv(3);
-	rowblk   = sp_ienv(4);
-	first = 0;
-    }
     ldaTmp = maxsuper + rowblk;
 
     lsub      = Glu->lsub;
